@@ -5,6 +5,7 @@
 Prints one line per check: exit code, VIOLATION lines, wall time.  /repo is
 always restored (git checkout -- .) afterwards.
 """
+import os
 import subprocess
 import sys
 import time
@@ -38,7 +39,9 @@ def main():
             t0 = time.time()
             procs.append((p, t0, subprocess.Popen(
                 f"/venv/bin/python -m vf.run {p} --tier {tier}", shell=True, cwd="/verif",
-                stdout=subprocess.PIPE, stderr=subprocess.STDOUT, text=True)))
+                stdout=subprocess.PIPE, stderr=subprocess.STDOUT, text=True,
+                env=dict(os.environ, VF_EVIDENCE_DIR="/root/scratch/mut_evidence",
+                         VF_REPLAY_DIR="/root/scratch/mut_replays"))))
         for p, t0, pr in procs:
             out, _ = pr.communicate()
             viol = [l for l in out.splitlines() if l.startswith(("VIOLATION", "MACHINERY", "KNOWN"))]
